@@ -1300,6 +1300,7 @@ class WorkerGateway(BaseGateway):
                 self._trace("execution finished")
         except KeyboardInterrupt:
             channel.close(INTERRUPT_TEXT)
+            self._mark_executetask_complete()
             raise
         except EOFError:
             self._trace("ignoring EOFError because receiving finished")
@@ -1309,9 +1310,14 @@ class WorkerGateway(BaseGateway):
                 self._trace(f"got exception: {exc!r}")
                 errortext = self._geterrortext(exc)
                 channel.close(errortext)
+                self._mark_executetask_complete()
                 return
         channel.close()
-        if self._executetask_complete is not None:
+        self._mark_executetask_complete()
+
+    def _mark_executetask_complete(self) -> None:
+        # (the attribute only exists once serve() was called)
+        if getattr(self, "_executetask_complete", None) is not None:
             # Indicate that this task has finished executing, meaning
             # that there is no possibility of it triggering a deadlock
             # for the next spawn call.
